@@ -212,6 +212,7 @@ def run(ctx):
                        [site(b, c.bb)])
 
     pools_shrink_only_in_vacuum(ctx, prog, 'C08-R6')
+    pin_is_fresh(ctx, prog)
 
     R7 = 'C08-R7'
     ctx.rule(R7, 'a transaction reads what it pinned: everything scan_inner learns about the table (row-set list, delete vectors) comes from '
@@ -289,3 +290,45 @@ def pools_shrink_only_in_vacuum(ctx, prog, R6):
                    what=f'{bd.root} removes entries from the version manager\'s object pool outside find_vacuum: a reader whose pinned '
                         'snapshot still lists the object panics when it opens its scan')
     ctx.floor(R6, n_rm, 1, 'removals from the version manager object pools')
+
+
+def pin_is_fresh(ctx, prog):
+    """C08-R8: a pin is of the epoch that is current when it is taken"""
+    R8 = 'C08-R8'
+    ctx.rule(R8, 'VersionManager::pin hands out the version that is current at the call: every value it returns is an Arc::new of a Version '
+                 'aggregate built in the same call, whose epoch and snapshot are read from `inner.epoch` / `inner.status` under the lock it '
+                 'holds - never a Version kept from an earlier call (a cached / shared pin answers later transactions with an old epoch: '
+                 'they do not see acknowledged commits, and the horizon of vacuum is computed from a count that no longer says who reads what)')
+    b = prog.body(SEC + 'version_manager::VersionManager::pin')
+    if not ctx.anchor(R8, 'VersionManager::pin', b is not None):
+        return
+    ctx.functions_analysed.add(b.name)
+    VERSION = SEC + 'version_manager::Version'
+    rets = []
+
+    def walk(l, depth=6, seen=None):
+        seen = seen if seen is not None else set()
+        if l in seen or depth < 0:
+            return
+        seen.add(l)
+        for bb, kind, payload in local_defs(b, l):
+            if kind == 'call':
+                fn = payload.get('fn') or ''
+                fresh = False
+                if fn.endswith('Arc::<T>::new') and payload['args'] and payload['args'][0]['k'] != 'const':
+                    src = origin_locals(b, payload['args'][0]['pl']['l'], depth=3)
+                    fresh = any(True for _, st in b.aggregates(VERSION) if st['lhs']['l'] in src)
+                rets.append((bb, fn.rsplit('::', 1)[-1] if fn else '?', fresh))
+            elif payload.get('rv') == 'use' and payload['op'].get('k') != 'const':
+                walk(payload['op']['pl']['l'], depth - 1, seen)     # `let v = Arc::new(..); v`
+            else:
+                rets.append((bb, 'assign ' + str(payload.get('rv')), False))
+    walk(0)
+    reads_epoch = any(f == INNER + '::epoch' for _, st in b.stmts() if st['s'] == 'assign' for pl in operand_places(st['rv']) for f in pl_fields(pl))
+    if ctx.anchor(R8, 'pin: definitions of the return value', rets):
+        ok = all(f for _, _, f in rets) and reads_epoch
+        ctx.ob(R8, 'pin·returns-a-fresh-version-of-the-current-epoch', ok,
+               f'return value defined by {rets}; reads inner.epoch: {reads_epoch}',
+               [site(b, bb) for bb, _, _ in rets],
+               what='VersionManager::pin can return a Version it did not build in this call (a cached or shared pin): a transaction started after a '
+                    'commit was acknowledged may be handed the epoch from before it and does not see the committed rows')
